@@ -19,7 +19,8 @@ struct PWord {
 }
 
 const LETTERS: &str = "abcdefghijklmnopqrstuvwxyz";
-const ACCENTED: &[char] = &['é', 'ü', 'ñ', 'ж', 'я', 'λ', 'É', 'Ж'];
+// (the last five change their UTF-8 length when lower-cased or upper-cased: Kelvin, Ohm and Angstrom signs, ẞ, İ)
+const ACCENTED: &[char] = &['é', 'ü', 'ñ', 'ж', 'я', 'λ', 'É', 'Ж', '\u{212a}', '\u{2126}', '\u{212b}', 'ẞ', 'İ'];
 
 fn letters(rng: &mut Rng, n: usize) -> String {
     (0..n)
@@ -52,6 +53,8 @@ fn plain_part(rng: &mut Rng, first: bool, forced_len: Option<usize>) -> (String,
         } else {
             let n = forced_len.unwrap_or_else(|| match rng.below(10) {
                 0 => *rng.pick(&[10usize, 20, 11, 19, 23]),
+                // (very long words: the length is counted modulo 10, not modulo 256 first)
+                1 if rng.chance(1, 20) => *rng.pick(&[100usize, 255, 256, 257, 300, 1000, 65_536]),
                 _ => rng.range(1, 9),
             });
             (letters(rng, n), n)
@@ -139,7 +142,10 @@ struct Literal {
 }
 
 fn literal(rng: &mut Rng) -> Literal {
+    // (a twelfth of the literals are long runs of words without a period: 18 to 40 integer digits)
+    let long_integer = rng.chance(1, 12);
     let n = match rng.below(8) {
+        _ if long_integer => rng.range(18, 40),
         0 => 1,
         1 => rng.range(10, 25),
         _ => rng.range(1, 9),
@@ -152,11 +158,14 @@ fn literal(rng: &mut Rng) -> Literal {
     let mut shape = Vec::new();
     let mut lengths = Vec::new();
     const NOISE: &[&str] = &[",", " ,", ", ", "!", "?", ";", ":", " ' ", "  ", "\t", " (la la) ", " (a\u{301}) "];
-    if rng.chance(1, 15) {
+    if rng.chance(1, 15) && !long_integer {
         text.push_str(". ");
         elems.push(PoeticElem::Dot);
         seen_dot = true;
         shape.push("dot_first");
+    }
+    if long_integer {
+        shape.push("long_integer_part");
     }
     for i in 0..n {
         let w = pword(rng, i == 0 && elems.is_empty());
@@ -186,7 +195,7 @@ fn literal(rng: &mut Rng) -> Literal {
             text.push_str(p);
             shape.push("noise_between_words");
         }
-        if i + 1 < n && rng.chance(1, if seen_dot { 10 } else { 4 }) {
+        if i + 1 < n && !long_integer && rng.chance(1, if seen_dot { 10 } else { 4 }) {
             text.push_str(*rng.pick(&[".", " .", ". "]));
             text.push(' ');
             elems.push(PoeticElem::Dot);
